@@ -76,7 +76,8 @@ def sto(a, b, s):
     Herbrand algorithm on a = b under s could bind a variable to a term containing it.
 
     Congruence closure: an equation with a variable on one side merges the two classes (whatever the variable
-    already equals); two compounds of the same name/arity merge and their arguments are equated; a direct clash
+    already equals); two compounds of the same name/arity merge and their arguments are equated - ALL pairs of
+    same-signature compounds of a class, not one representative; a direct clash
     of two non-variable terms is skipped (no order derives anything from it).  Then a cycle test on the class
     graph with edges from EVERY compound member of a class.  Conservative: may say True for a few NSTO
     equations, never False for an STO one (self-tested against random-order Herbrand runs)."""
@@ -92,7 +93,7 @@ def sto(a, b, s):
             if k not in parent:
                 keep.append(t)
                 parent[k] = k
-                sigs[k] = {(t[1], len(t[2])): t}
+                sigs[k] = {(t[1], len(t[2])): [t]}
                 members[k] = [t]
         else:
             k = t
@@ -126,11 +127,14 @@ def sto(a, b, s):
             if sx != sy:
                 continue
         parent[ky] = kx
-        for sig, t in sigs[ky].items():
-            if sig in sigs[kx]:
-                work.extend(zip(sigs[kx][sig][2], t[2]))
-            else:
-                sigs[kx][sig] = t
+        for sig, ts in sigs[ky].items():
+            # every pair of same-signature compounds that end up in one class is decomposed (not just one
+            # representative per class): with X = t1 bound first, some order meets t1 = t2 for any two of them
+            have = sigs[kx].setdefault(sig, [])
+            for t in ts:
+                for u in have:
+                    work.extend(zip(u[2], t[2]))
+            have.extend(ts)
         del sigs[ky]
         members[kx].extend(members.pop(ky))
     WHITE, GREY, BLACK = 0, 1, 2
@@ -284,7 +288,7 @@ def group_clauses(clauses):
 
 
 # ---------------------------------------------------------------- concrete syntax
-_ATOM_RE = re.compile(r'^[a-z][A-Za-z0-9_]*$')
+_ATOM_RE = re.compile(r'[a-z][A-Za-z0-9_]*\Z')
 
 
 def atom_text(name, force_quote=False):
